@@ -374,6 +374,8 @@ func Process12(in Row) (Row, string) {
 		return ProcessMsg(in)
 	case "bhist":
 		return ProcessBHist(in)
+	case "omsg":
+		return ProcessOMsg(in)
 	}
 	panic(fmt.Sprintf("wire: unknown C12 row kind %q", S(in["k"])))
 }
@@ -758,7 +760,9 @@ func Rand12(r *rand.Rand) Row {
 		return RandDeploy(r)
 	case x < 96:
 		return RandSU(r)
-	default:
+	case x < 98:
 		return RandMsg(r)
+	default:
+		return RandOMsg(r)
 	}
 }
